@@ -8,7 +8,7 @@ OUT=seeded/matrix.tsv
 TMP=$(mktemp)
 [ -f $OUT ] && cp $OUT $TMP
 for id in $IDS; do
-  for p in seeded/$id/patch_*.diff; do
+  for p in seeded/$id/patch_${ONLY:-*}.diff; do
     [ -f "$p" ] || continue
     if [ -n "$(git -C /repo status --porcelain)" ]; then echo "/repo not clean" >&2; exit 2; fi
     if ! git -C /repo apply "/verif/$p"; then echo "$id $p - broken 2 0 does-not-apply" >> $TMP; continue; fi
